@@ -1,6 +1,6 @@
 (* C03 - Every emitted RPU is well-formed and decodes to exactly what was written. *)
 From Coq Require Import List NArith ZArith Bool String.
-From DV Require Import Outcome Bits BitIO Fields Blocks Rpu Ops Tables FieldsProofs C03Proofs RpuRTExample DmWS DmWSExample HeaderWS.
+From DV Require Import Outcome Bits BitIO Fields Blocks Rpu Ops Tables FieldsProofs C03Proofs RpuRTExample DmWS DmWSExample HeaderWS MappingRT MappingWS.
 From DVgen Require Import Consts_gen Blocks_gen DmData_gen Switches_gen.
 Import ListNotations.
 Open Scope N_scope.
@@ -95,6 +95,25 @@ Theorem C03_header_write_sound : forall p h w w',
   write_header p h w = Ok w' -> header_canonical h ->
   exists bs, w' = wput w bs /\ reads (parse_header Debug) bs h.
 Proof. exact header_write_sound. Qed.
+
+(* the mapping: three curves (pivots; polynomial or MMR pieces of every order, with integer parts
+   under coefficient_data_type 0), NLQ header and body: read back as exactly the in-memory mapping.
+   mapping_canonical = every value within its type, arrays as long as the piece count, signed
+   coefficients below 2^52 (third-party signed exp-Golomb reader), single-method curves. *)
+Theorem C03_mapping_write_sound : forall sw h,
+  coefficient_log2_denom_length h < 64 -> el_bit_depth_minus8 h + 8 < 16 ->
+  (bl_bit_depth_minus8 h + 8) mod 4294967296 < 16 -> 1 <= (bl_bit_depth_minus8 h + 8) mod 4294967296 ->
+  forall p m w w',
+  write_mapping p sw h m w = Ok w' -> mapping_canonical sw h m ->
+  exists bs, w' = wput w bs /\ reads (parse_mapping Debug sw h) bs m.
+Proof. exact mapping_write_sound. Qed.
+
+Theorem C03_nlq_write_sound : forall h,
+  coefficient_log2_denom_length h < 64 -> el_bit_depth_minus8 h + 8 < 16 ->
+  forall p m q w w',
+  write_nlq p h m q w = Ok w' -> nlq_canonical h q -> is_some (nlq_method_idc m) = true ->
+  exists bs, w' = wput w bs /\ reads (parse_nlq Debug h) bs q.
+Proof. exact nlq_write_sound. Qed.
 
 Theorem C03_switches_as_assumed :
   g_block_len_checked_parse = g_block_len_checked_write /\ g_blocks_alloc_clamped = true.
